@@ -302,12 +302,19 @@ def function_domains():
     from gemclus._constraints import InvalidParameterError
     obs = []
 
-    def table(name, f, good, bads, fn):
+    def table(name, f, good, bads, fn, also_valid=()):
         fails = []
         try:
             f(**good)
         except Exception as e:
             fails.append({"args": "valid", "problem": repr(e)[:100]})
+        for k, v in also_valid:                      # further in-domain values (boundaries of the documented domain) must be accepted
+            try:
+                with warnings.catch_warnings():
+                    warnings.simplefilter("ignore")
+                    f(**dict(good, **{k: v}))
+            except Exception as e:
+                fails.append({k: repr(v)[:60], "problem": "in-domain value rejected: " + repr(e)[:80]})
         for k, vals in bads.items():
             for v in vals:
                 kw = dict(good)
@@ -334,7 +341,10 @@ def function_domains():
                                                                                                                          # indefinite (one negative, one positive eigenvalue), in either position
                                                                                                                          [np.array([[1., 2.], [2., 1.]]), np.eye(2)], [np.eye(2), np.diag([3., -0.5])],
                                                                                                                          [np.eye(2), np.array([[0.5, -2.], [-2., 0.5]])], [np.zeros((2, 2)), np.eye(2)]],
-           "random_state": ["x", -1]}, "gemclus.data.draw_gmm")
+           "random_state": ["x", -1]}, "gemclus.data.draw_gmm",
+          # positive SEMI-definite covariances (an eigenvalue exactly 0: a constant or duplicated coordinate) are in the documented domain
+          also_valid=[("scale", [np.diag([1., 0.]), np.eye(2)]), ("scale", [np.eye(2), np.array([[1., 1.], [1., 1.]])]),
+                      ("scale", [np.array([[4., 2.], [2., 1.]]), np.diag([0., 3.])]), ("pvals", [0.25, 0.75]), ("n", 1)])
     table("draw_gmm (1-d)", draw_gmm, dict(n=5, loc=[[0.], [1.]], scale=[[1.], [4.]], pvals=[0.5, 0.5], random_state=0),
           {"scale": [[[-1.], [1.]], [[1.], [-0.1]], [[1.]], [[1.], [1.], [1.]]], "pvals": [[0.3, 0.3], [1.0, 0.0]]}, "gemclus.data.draw_gmm")
     table("multivariate_student_t", multivariate_student_t, dict(n=5, loc=[0, 0], scale=np.eye(2), df=3, random_state=0),
